@@ -171,9 +171,71 @@ def load_known_findings() -> List[dict]:
 
 
 def unlisted_violations(ck: Checker) -> list:
-    """violations of this run that are not listed as known findings of the property"""
+    """violations of this run that are not listed as known findings of the property and whose construct the analysis models
+    (see untrusted_violations)"""
     known = {k["key"] for k in load_known_findings() if k.get("status") == "known" and k.get("property") == ck.prop_id}
-    return [v for v in ck.violations if v.key not in known]
+    bad = {id(v) for v, _ in untrusted_violations(ck)}
+    return [v for v in ck.violations if v.key not in known and id(v) not in bad]
+
+
+_PINNED_FEATURES = None
+
+
+def _function_at(p, where: str):
+    import re as _re
+    m = _re.match(r"([^:\s]+\.py):(\d+)", where or "")
+    if not m:
+        return None
+    rel, line = m.group(1), int(m.group(2))
+    best = None
+    for f in p.functions.values():
+        if f.module.relpath == rel and f.node.lineno <= line <= (getattr(f.node, "end_lineno", None) or f.node.lineno):
+            if best is None or f.node.lineno >= best.node.lineno:
+                best = f
+    return best
+
+
+def untrusted_violations(ck: Checker) -> list:
+    """[(violation, reason)] for deviations reported in a function that uses - newly, relative to the pinned tree - a language
+    feature the analysis does not model (sa/features.py), directly or through a helper introduced after the pinned tree"""
+    global _PINNED_FEATURES
+    ctx = ck.ctx
+    if ctx is None or not ck.violations:
+        return []
+    from .features import features_of
+    from .norm import is_new_helper
+    if _PINNED_FEATURES is None:
+        with open(os.path.join(os.path.dirname(__file__), "pinned_functions.json")) as f:
+            _PINNED_FEATURES = json.load(f).get("features", {})
+    cache = getattr(ctx, "_feature_cache", None)
+    if cache is None:
+        cache = ctx._feature_cache = {}
+
+    def new_features(fn, depth=0):
+        key = (fn.qualname, depth)
+        if key in cache:
+            return cache[key]
+        cache[key] = set()
+        feats = {(x, fn.qualname) for x in features_of(fn.node) - set(_PINNED_FEATURES.get(fn.qualname, []))}
+        if depth < 2:
+            for site in ctx.cg.sites.get(fn.qualname, []):
+                for c in site.repo_callees():
+                    g = getattr(c, "fn", None)
+                    if g is not None and g is not fn and is_new_helper(g):
+                        feats |= new_features(g, depth + 1)
+            for child in getattr(fn, "children", []) or []:
+                feats |= new_features(child, depth + 1)
+        cache[key] = feats
+        return feats
+    out = []
+    for v in ck.violations:
+        fn = _function_at(ctx.p, v.where)
+        if fn is None:
+            continue
+        feats = new_features(fn)
+        if feats:
+            out.append((v, "; ".join(sorted(f"{x} in {q.split(':')[-1]}" for x, q in feats))))
+    return out
 
 
 def finish(ck: Checker, started: float, seed: int, error: Optional[str] = None) -> int:
@@ -186,11 +248,20 @@ def finish(ck: Checker, started: float, seed: int, error: Optional[str] = None) 
         violations = [v for v in violations if v.key == ck.only_key]
     new_violations = []
     known_matched = []
+    untrusted = {id(v): why for v, why in untrusted_violations(ck)}
+    distrusted = []
     for v in violations:
         if v.key in known:
             known_matched.append(v)
+        elif id(v) in untrusted:
+            distrusted.append((v, untrusted[id(v)]))
         else:
             new_violations.append(v)
+    if distrusted and not error:
+        v, why = distrusted[0]
+        error = (f"{v.where}: rule {v.rule} does not match at {v.construct}, but the code there uses a construct the analysis "
+                 f"does not model ({why}): the deviation is not trusted and nothing is reported"
+                 + (f" (+{len(distrusted) - 1} more)" if len(distrusted) > 1 else ""))
 
     ctx = ck.ctx
     stats = {}
